@@ -8,6 +8,7 @@
    chunks_ok    = every chunk stored through the jchuff.c STORE_BUFFER protocol is < BUFSIZE bytes *)
 From Coq Require Import List ZArith.
 From LJT Require Import gen.GenDest model.Dest model.WorstCase proofs.DestProofs proofs.DestLeak proofs.DestChunk proofs.WorstCaseProofs.
+From LJT Require Import gen.GenXformIcc model.XformIcc proofs.XformIccProofs.
 Import ListNotations.
 Local Open Scope Z_scope.
 
@@ -123,6 +124,25 @@ Theorem C13_worstcase_witness : exists w h blocks bytes,
   scan_bytes blocks = Some bytes /\ tj3JPEGBufSize w h tjsamp_gray < bytes.
 Proof. exact worstcase_witness. Qed.
 Print Assumptions C13_worstcase_witness.
+
+(* (6b) worst-case size + ICC for tj3Transform: the ICC term of tj3TransformBufSize() (conditions
+   translated from the source) is at least the ICC payload tj3Transform() writes, for every
+   TJPARAM_SAVEMARKERS 0..4, TJXOPT_COPYNONE on/off, source / instance profile of any size,
+   tj3GetICCProfile() called or not -- outside the two cases below, in which it is refuted *)
+Theorem C13_xform_icc_sufficient_partial : forall x, valid_setup x ->
+  no_source_profile_case x = false -> after_get_case x = false -> icc_written x <= size_term x.
+Proof. exact xform_icc_sufficient_partial. Qed.
+Print Assumptions C13_xform_icc_sufficient_partial.
+
+Theorem C13_xform_icc_sufficient_refuted : ~ xform_icc_sufficient_full.
+Proof. exact xform_icc_sufficient_refuted. Qed.
+Print Assumptions C13_xform_icc_sufficient_refuted.
+
+Theorem C13_xform_icc_witnesses :
+  (valid_setup setup_i /\ size_term setup_i = 0 /\ icc_written setup_i = 3000) /\
+  (valid_setup setup_ii /\ size_term setup_ii = 0 /\ icc_written setup_ii = 3000).
+Proof. exact xform_icc_witnesses. Qed.
+Print Assumptions C13_xform_icc_witnesses.
 
 (* non-vacuity: the hypotheses of (1)-(4) hold for non-trivial histories (growth, reuse of a grown
    buffer with *jpegSize = 0, NOREALLOC success, caller frees) *)
